@@ -501,7 +501,7 @@ pub fn run(tier: &str) -> i32 {
     o.cov("exhaustive", json!(true));
     crash_explore(&mut o, &plans(tier), deadline, q, if q { 2 } else { 12 }, "");
     o.cov("rule", json!("programs = all maximal operation programs of the plan's alphabet up to its depth (enumerated on the real code); each is executed once by a child process under the LD_PRELOAD shim, which copies the database directory before EVERY file-mutating libc call (crash image = what a process killed there leaves); every distinct image taken after the first open returned, plus marker-edge/middle/end splits of every journal write() and the middle split of every other write(), is recovered by the real code: open must succeed, all keyspaces together must equal the model after `acked` or `acked+1` operations, then overwrites/removes/reopen must behave. Each evaluated image is a distinct directory state. (Every byte split of journal appends is enumerated by C03.)"));
-    crate::e3::fold_e3(&mut o, "C02", tier, &bodies(tier), "e3_");
+    crate::e3::fold_e3(&mut o, "C02", tier, &crate::e3::with_variants(bodies(tier), tier), "e3_");
     o.assumptions = vec![
         "single-threaded driver for the crash-point enumeration (the prefix oracle needs a deterministic commit order); concurrent writers are covered only by the E3 body, which takes ONE crash image (after every thread was acknowledged) under every schedule up to the preemption bound".into(),
         "a process crash does not reorder page-cache writes; power loss is C09's".into(),
